@@ -690,6 +690,7 @@ def check(mod, ctx, args):
         },
         "assumptions": getattr(mod, "ASSUMPTIONS", []),
     }
+    ev["coverage"]["sensitivity_last_selftest"] = _last_selftest(mod.ID)
     extra = getattr(mod, "evidence_extra", None)
     if extra is not None:
         ev["coverage"].update(extra(ctx) or {})
@@ -707,6 +708,36 @@ def check(mod, ctx, args):
         % (mod.ID, ctx.tier, ctx.seed, agg["evaluations"], len(nontrivial), len(states), sum(faults.values()), len(reported), len(known_hits), wall, exit_code)
     )
     return exit_code
+
+
+def _last_selftest(prop_id):
+    """Results of the last sensitivity self-test and seeded-change recheck (NOT measured by this run;
+    read from the committed result files and labelled as such)."""
+    out = {"note": "not measured by this run: read from selftest/sensitivity_results.json and seeded/*/meta.json"}
+    try:
+        with open(os.path.join(VERIF, "selftest", "sensitivity_results.json")) as f:
+            rs = [r for r in json.load(f) if r.get("property") == prop_id]
+        out["own_mutants_tried"] = len(rs)
+        out["own_mutants_killed"] = sum(r["status"] == "KILLED" for r in rs)
+        out["own_mutants_survived"] = [r["name"] for r in rs if r["status"] != "KILLED"]
+    except Exception:
+        pass
+    try:
+        sd = os.path.join(VERIF, "seeded")
+        ms = []
+        for d in sorted(os.listdir(sd)):
+            mp = os.path.join(sd, d, "meta.json")
+            if os.path.exists(mp):
+                with open(mp) as f:
+                    m = json.load(f)
+                if m.get("property") == prop_id:
+                    ms.append(m)
+        out["independent_changes_kept"] = len(ms)
+        out["independent_changes_caught_now"] = sum(1 for m in ms if prop_id in m.get("caught_by", []))
+        out["independent_changes_caught_on_first_run"] = sum(1 for m in ms if m.get("caught_on_first_run") is True)
+    except Exception:
+        pass
+    return out
 
 
 def determinism_sample(mod, ctx, digests, n):
